@@ -472,7 +472,7 @@ def sibling_defaults(run, rule, mi):
 
 
 # ---------------------------------------------------------------------------------------------------------------- sibling guards
-def _guard_atoms(test, local_names):
+def _guard_atoms(test, local_names, int_names=()):
     """(structure, atoms, skeleton atoms): the test as a boolean function over canonical atoms.  Comparisons are reduced to == and < (a != b is
     not (a == b), a >= b is not (a < b), a > b is b < a, a <= b is not (b < a)); local variable names are abstracted to '_', attribute / function /
     class names and constants are kept.  The skeleton abstracts constants and operators as well and sorts call arguments."""
@@ -521,6 +521,13 @@ def _guard_atoms(test, local_names):
         if isinstance(e, ast.Compare) and len(e.ops) == 1:
             l, r, op = e.left, e.comparators[0], type(e.ops[0])
             mk = lambda a, o, b: ast.Compare(left=a, ops=[o()], comparators=[b])
+            # an integer compared with an integer constant: x <= k is x < k + 1, x > k is not (x < k + 1) -- one spelling for both
+            if isinstance(l, ast.Name) and l.id in int_names and isinstance(r, ast.Constant) and isinstance(r.value, int) and not isinstance(r.value, bool):
+                k1 = ast.Constant(value=r.value + 1)
+                if op is ast.LtE:
+                    return atom(mk(l, ast.Lt, k1))
+                if op is ast.Gt:
+                    return ('not', atom(mk(l, ast.Lt, k1)))
             if op is ast.NotEq:
                 return ('not', atom(mk(l, ast.Eq, r)))
             if op is ast.GtE:
@@ -615,6 +622,15 @@ def sibling_guards(run, rule, modules, min_major=4):
         for fname, f in fns:
             local_names = ({a.arg for a in f.args.posonlyargs + f.args.args + f.args.kwonlyargs} |
                            {t.id for st in ast.walk(f) for t in ast.walk(st) if isinstance(t, ast.Name) and isinstance(t.ctx, ast.Store)}) - {'self', 'cls'}
+            int_names = set()
+            for st in ast.walk(f):
+                if isinstance(st, ast.Assign) and len(st.targets) == 1 and isinstance(st.targets[0], ast.Name) and isinstance(st.value, ast.Call) \
+                        and dotted(st.value.func) in ('int', 'len', 'round'):
+                    int_names.add(st.targets[0].id)
+                elif isinstance(st, ast.AnnAssign) and isinstance(st.target, ast.Name) and (getattr(st, 'cy_type', None) or '') in ('int', 'long', 'Py_ssize_t', 'unsigned int'):
+                    int_names.add(st.target.id)
+                elif isinstance(st, ast.arg) and (getattr(st, 'cy_type', None) or '') in ('int', 'long', 'Py_ssize_t', 'unsigned int'):
+                    int_names.add(st.arg)
             for st in ast.walk(f):
                 body_kind = None
                 test = None
@@ -637,11 +653,13 @@ def sibling_guards(run, rule, modules, min_major=4):
                     continue
                 try:
                     r = _guard_atoms(test, local_names)
+                    ri = _guard_atoms(test, local_names, int_names) if int_names else r
                 except Exception:
                     r = None
-                if r is None:
+                if r is None or ri is None:
                     continue
                 sig, atoms, sk = r
+                st._int_form = (ri[0], ri[1])
                 groups.setdefault((sk, body_kind), {}).setdefault((sig, atoms), []).append((mi, fname, st))
     n = 0
     for (sk, kind), variants in sorted(groups.items(), key=lambda kv: str(kv[0])):
@@ -655,10 +673,13 @@ def sibling_guards(run, rule, modules, min_major=4):
         major = max(variants.items(), key=lambda kv: len(kv[1]))
         if len(major[1]) < min_major or len(major[1]) < 0.75 * total:
             continue
+        major_forms = {major[0]} | {getattr(x[2], '_int_form', None) for x in major[1]}
         for key, sites in variants.items():
             if key == major[0] or len(sites) > 2:
                 continue
             for mi, fname, st in sites:
+                if getattr(st, '_int_form', None) in major_forms:
+                    continue            # the same guard for an integer: x < 1 is x <= 0
                 n += 1
                 run.subject(rule)
                 gtxt = norm(st.test if isinstance(st, ast.If) else st.value)
